@@ -15,7 +15,6 @@ import (
 	"time"
 
 	"github.com/anishathalye/porcupine"
-	"github.com/multiversx/mx-chain-storage-go/leveldb"
 	"github.com/multiversx/mx-chain-storage-go/types"
 )
 
@@ -69,6 +68,8 @@ type concpRunner struct {
 	tagBuf
 	kind  string
 	batch int
+	delay int
+	gate  *timerGate
 	keys  [][]byte
 	dir   string
 	p     types.Persister
@@ -103,16 +104,22 @@ func (concpComp) NewRunner(begin string) Runner {
 	r.dir = filepath.Join(scratchBase(), fmt.Sprintf("svh-concp-%d-%d", os.Getpid(), atomic.AddInt64(&persistDirCounter, 1)))
 	_ = os.RemoveAll(r.dir)
 	var err error
-	r.p, err = openPersister(r.kind, r.dir, 3600, r.batch)
+	r.delay = 3600
+	if kv["timer"] == "1" {
+		r.delay = 1
+		r.gate = registerGate(r.dir)
+	}
+	r.p, err = openPersister(r.kind, r.dir, r.delay, r.batch)
 	if err != nil {
 		panic(err)
 	}
-	leveldb.SetVerifHook(r.hook)
+	concpHook.Store(r.hook)
 	return r
 }
 
 func (r *concpRunner) Close() {
-	leveldb.SetVerifHook(nil)
+	unregisterGate(r.dir)
+	concpHook.Store(func(string) {})
 	if r.releaseCh != nil {
 		select {
 		case <-r.releaseCh:
@@ -174,6 +181,11 @@ func (r *concpRunner) do(c cop) string {
 			return "!"
 		}
 		return hx(v)
+	case "has":
+		if err := r.p.Has(c.k); err != nil {
+			return "absent"
+		}
+		return "present"
 	}
 	return "?"
 }
@@ -220,6 +232,11 @@ var regModel = porcupine.Model{
 			return true, in.val
 		case "rm":
 			return true, "!"
+		case "has":
+			if state.(string) == "!" {
+				return output.(string) == "absent", state
+			}
+			return output.(string) == "present", state
 		default:
 			return output.(string) == state.(string), state
 		}
@@ -289,6 +306,9 @@ func (r *concpRunner) Exec(line string) string {
 		return r.execSched(t[1:])
 	case "window":
 		r.execWindow(t[1], parseCop(t[2]), t[3:])
+		return "-"
+	case "timerwindow":
+		r.execTimerWindow(t[1:])
 		return "-"
 	case "stress":
 		seed, _ := strconv.ParseInt(t[1], 10, 64)
@@ -474,6 +494,60 @@ func (r *concpRunner) finalReads(h *histRec) {
 	}
 }
 
+// timer window: let the timer flush start, park it between its LevelDB write and the batch reset, run probes, release
+func (r *concpRunner) execTimerWindow(probes []string) {
+	if r.gate == nil {
+		return
+	}
+	pre := r.statePrefix()
+	h := &histRec{t0: time.Now()}
+	r.parkID = "db.timer.betweenWriteAndReset"
+	r.parkCh = make(chan struct{})
+	r.releaseCh = make(chan struct{})
+	atomic.StoreInt32(&r.parked, 0)
+	select {
+	case <-r.gate.arrived:
+	case <-time.After(30 * time.Second):
+		r.add("C10", "timer-never-fired", "the BatchDelaySeconds timer did not fire within 30s")
+		r.parkID = ""
+		return
+	}
+	r.gate.release <- struct{}{}
+	reached := false
+	select {
+	case <-r.parkCh:
+		reached = true
+		r.tag("timer-window-parked")
+	case <-r.gate.done:
+		r.tag("timer-window-not-reached")
+	case <-time.After(5 * time.Second):
+		r.tag("timer-window-timeout")
+	}
+	for i, ps := range probes {
+		r.timed(h, i+1, parseCop(ps), 150*time.Millisecond)
+	}
+	close(r.releaseCh)
+	if reached {
+		select {
+		case <-r.gate.done:
+		case <-time.After(5 * time.Second):
+		}
+	}
+	deadline := time.Now().Add(30 * time.Second)
+	for time.Now().Before(deadline) {
+		h.mu.Lock()
+		n := len(h.ops)
+		h.mu.Unlock()
+		if n >= len(probes) {
+			break
+		}
+		time.Sleep(time.Millisecond)
+	}
+	r.parkID = ""
+	r.finalReads(h)
+	r.checkLin(h, pre, "timer window")
+}
+
 func (r *concpRunner) execStress(seed int64, nt, nops int) {
 	pre := r.statePrefix()
 	h := &histRec{t0: time.Now()}
@@ -537,10 +611,21 @@ func (concpComp) Gen(rng *rand.Rand, tier string) [][]string {
 			return "get:" + k
 		}
 	}
+	randProbe := func() string {
+		if rng.Intn(4) == 0 {
+			return "has:" + keys[rng.Intn(len(keys))]
+		}
+		return randOp()
+	}
 	for i := 0; i < nh; i++ {
 		kind := pick(rng, "db", "serial")
 		batch := pick(rng, 1, 2, 2, 3, 4)
-		h := []string{fmt.Sprintf("begin concp kind=%s batch=%d keys=%s", kind, batch, strings.Join(keys, ","))}
+		timer := 0
+		if kind == "db" && i%5 == 4 {
+			timer = 1
+			batch = 4
+		}
+		h := []string{fmt.Sprintf("begin concp kind=%s batch=%d timer=%d keys=%s", kind, batch, timer, strings.Join(keys, ","))}
 		for s := 0; s < rng.Intn(5); s++ {
 			h = append(h, "seq "+randOp())
 		}
@@ -586,12 +671,24 @@ func (concpComp) Gen(rng *rand.Rand, tier string) [][]string {
 			}
 			var probes []string
 			for j := 0; j < 2+rng.Intn(3); j++ {
-				probes = append(probes, randOp())
+				probes = append(probes, randProbe())
 			}
 			for s := 0; s < rng.Intn(3); s++ {
 				h = append(h, "wseq "+randOp())
 			}
 			h = append(h, fmt.Sprintf("window %s %s %s", hk, parked, strings.Join(probes, " ")))
+		}
+		if strings.Contains(h[0], "timer=1") {
+			for w := 0; w < 2; w++ {
+				for s := 0; s < 1+rng.Intn(2); s++ {
+					h = append(h, "wseq "+randOp())
+				}
+				var probes []string
+				for j := 0; j < 2+rng.Intn(3); j++ {
+					probes = append(probes, randProbe())
+				}
+				h = append(h, "timerwindow "+strings.Join(probes, " "))
+			}
 		}
 		if i < nstress {
 			h = append(h, fmt.Sprintf("stress %d %d %d", rng.Int63n(1<<30), 2+rng.Intn(4), 40))
